@@ -215,6 +215,22 @@ def bounded(run, mods, tier):
                     fail(case, 'unexpected %r' % (e,))
                 if not closed_right(log):
                     fail(case, 'streams closed: %r' % [(s.origin, s.closes) for s in log])
+    # the read helper re-labels a syntax error: same class as the parser raises on the same text, message extended by the stream name
+    for bad in ('var = 1;', 'a b', 'var r = /abc', 'x = /[/;', 'var s = "abc', 'a = 1 @'):
+        try:
+            es5.parse(bad)
+            continue
+        except Exception as e0:
+            want, msg0 = type(e0), str(e0)
+        class Named(pyio.StringIO):
+            name = 'in.js'
+        n += 1
+        try:
+            cio.read(es5.parse, Named(bad))
+            fail('read | %r' % bad, 'io.read accepts %r, which the parser rejects' % bad, source=bad)
+        except Exception as e1:
+            if type(e1) is not want or 'in.js' not in str(e1) or msg0 not in str(e1):
+                fail('read | %r' % bad, 'the parser raises %s(%r); io.read raises %s(%r)' % (want.__name__, msg0, type(e1).__name__, str(e1)), source=bad)
     run.bounded_check('rt.io', '%d programs (two of them empty) x 2 printers' % len(PROGRAMS) + ' x %d name pairs x 8 stream arrangements x a fault at every external call '
                       '(stream factory, read, write, writelines); io.read x {valid, invalid, empty} x faults'
                       % (len(NAMES) if tier == 'thorough' else 5), n)
